@@ -1,1 +1,732 @@
-// generic cross-format property drivers (filled in later)
+//! Cross-format property drivers: C01 (schedule independence), C04 (failing source), C05 (totality,
+//! bounded resources), C08 (error locations), C09 parser half (no read past the completing line).
+//! Each takes the subjects and documents of one format family; everything runs the real parsers.
+
+use crate::choice::explore;
+use crate::report::Report;
+use crate::source::{Grain, Menu, SourceCfg};
+use crate::subject::{execute, End, Execution, Subject};
+use crate::{hex, json, show, unhex, Budget, Tier, Value};
+
+#[derive(Clone, Debug)]
+pub struct Doc {
+    pub name: String,
+    pub bytes: Vec<u8>,
+}
+
+impl Doc {
+    pub fn new(name: impl Into<String>, bytes: impl Into<Vec<u8>>) -> Self {
+        Doc { name: name.into(), bytes: bytes.into() }
+    }
+}
+
+/// Deduplicate documents by content, keep first names, order by (length, bytes): simplest first.
+pub fn dedup_docs(mut docs: Vec<Doc>) -> Vec<Doc> {
+    docs.sort_by(|a, b| (a.bytes.len(), &a.bytes).cmp(&(b.bytes.len(), &b.bytes)));
+    docs.dedup_by(|a, b| a.bytes == b.bytes);
+    docs
+}
+
+// ------------------------------------------------------------------------------------------------
+// execution specs (replayable)
+
+#[derive(Clone, Debug, PartialEq)]
+pub struct Spec {
+    pub grain: Grain,
+    pub chunk: Option<usize>,
+    pub fault_at: Option<usize>,
+    pub interrupts: u32,
+    pub line_gated: bool,
+    pub forced: Vec<(u32, u32)>,
+}
+
+impl Spec {
+    pub fn oneshot() -> Spec {
+        Spec { grain: Grain::OneShot, chunk: None, fault_at: None, interrupts: 0, line_gated: false, forced: vec![] }
+    }
+    pub fn uniform(s: usize, chunk: Option<usize>) -> Spec {
+        Spec { grain: Grain::Uniform(s), chunk, ..Spec::oneshot() }
+    }
+    pub fn choose(forced: Vec<(u32, u32)>, interrupts: u32, chunk: Option<usize>) -> Spec {
+        Spec { grain: Grain::Choose(Menu::AllSizes), chunk, interrupts, forced, ..Spec::oneshot() }
+    }
+    pub fn fault(mut self, k: Option<usize>) -> Spec {
+        self.fault_at = k;
+        self
+    }
+    pub fn gated(mut self) -> Spec {
+        self.line_gated = true;
+        self
+    }
+    pub fn to_json(&self) -> Value {
+        json!({
+            "grain": match &self.grain {
+                Grain::OneShot => json!(["oneshot"]),
+                Grain::Uniform(s) => json!(["uniform", s]),
+                Grain::Choose(_) => json!(["choose"]),
+                Grain::Script(_) => json!(["script"]),
+            },
+            "chunk": self.chunk,
+            "fault_at": self.fault_at,
+            "interrupts": self.interrupts,
+            "line_gated": self.line_gated,
+            "choices": self.forced.iter().map(|(c, n)| json!([c, n])).collect::<Vec<_>>(),
+        })
+    }
+    pub fn from_json(v: &Value) -> Spec {
+        let grain = match v["grain"][0].as_str().unwrap() {
+            "oneshot" => Grain::OneShot,
+            "uniform" => Grain::Uniform(v["grain"][1].as_u64().unwrap() as usize),
+            _ => Grain::Choose(Menu::AllSizes),
+        };
+        Spec {
+            grain,
+            chunk: v["chunk"].as_u64().map(|c| c as usize),
+            fault_at: v["fault_at"].as_u64().map(|c| c as usize),
+            interrupts: v["interrupts"].as_u64().unwrap_or(0) as u32,
+            line_gated: v["line_gated"].as_bool().unwrap_or(false),
+            forced: v["choices"].as_array().map(|a| a.iter().map(|c| (c[0].as_u64().unwrap() as u32, c[1].as_u64().unwrap() as u32)).collect()).unwrap_or_default(),
+        }
+    }
+    pub fn describe(&self) -> String {
+        let g = match &self.grain {
+            Grain::OneShot => "one-shot".to_string(),
+            Grain::Uniform(s) => format!("{s} byte(s) per read"),
+            Grain::Choose(_) => format!("choices {:?}", self.forced.iter().map(|c| c.0).collect::<Vec<_>>()),
+            Grain::Script(_) => "script".into(),
+        };
+        format!(
+            "{g}, chunk {}{}{}{}",
+            self.chunk.map_or("default".to_string(), |c| c.to_string()),
+            self.fault_at.map_or(String::new(), |k| format!(", source fails at offset {k}")),
+            if self.interrupts > 0 { format!(", up to {} Interrupted", self.interrupts) } else { String::new() },
+            if self.line_gated { ", line gated" } else { "" }
+        )
+    }
+}
+
+pub fn run_spec(subject: &dyn Subject, input: &[u8], spec: &Spec) -> Execution {
+    let boundaries = if spec.line_gated { Some(subject.boundaries(input)) } else { None };
+    let cfg = SourceCfg::new(input, spec.grain.clone()).fault_at(spec.fault_at).interrupts(spec.interrupts).boundaries(boundaries.as_deref());
+    execute(subject, cfg, spec.chunk, spec.forced.clone())
+}
+
+fn replay_json(property: &str, subject: &dyn Subject, input: &[u8], spec: &Spec) -> Value {
+    json!({"property": property, "subject": subject.name(), "input_hex": hex(input), "input": show(input), "spec": spec.to_json()})
+}
+
+/// Explore all executions of `subject` on `input` under the choice grain with a deviation bound.
+/// `each` is called for every execution with the spec that reproduces it.
+fn explore_schedules(
+    subject: &dyn Subject,
+    input: &[u8],
+    base: &Spec,
+    bound: Option<usize>,
+    report: &mut Report,
+    mut each: impl FnMut(&Spec, &Execution, &mut Report),
+) {
+    let r = explore(
+        bound,
+        |prefix| {
+            let mut spec = base.clone();
+            spec.forced = prefix;
+            let ex = run_spec(subject, input, &spec);
+            let (taken, diverged) = {
+                let s = ex.src.borrow();
+                (s.chooser.taken.clone(), s.chooser.diverged.clone())
+            };
+            if let Some(d) = diverged {
+                return Err(d);
+            }
+            spec.forced = taken.clone();
+            each(&spec, &ex, report);
+            Ok(taken)
+        },
+        || false,
+    );
+    if let Err(e) = r {
+        report.machinery_errors.push(format!("nondeterministic replay for {} on {:?}: {e}", subject.name(), show(input)));
+    }
+}
+
+fn family_of(subject: &dyn Subject) -> String {
+    let n = subject.name();
+    n.split(|c| c == '<' || c == '/').next().unwrap_or("?").to_string()
+}
+
+fn obs(ex: &Execution) -> String {
+    format!("{} item(s) then {}", ex.items.len(), ex.end.short())
+}
+
+// ------------------------------------------------------------------------------------------------
+// C01
+
+pub struct C01Params {
+    /// inputs up to this length get ALL schedules (every composition)
+    pub all_len: usize,
+    /// deviation bound for longer inputs
+    pub dev_bound: usize,
+    pub dev_interrupts: u32,
+    /// inputs longer than this only get DEV(1)
+    pub dev2_max_len: usize,
+    pub uni: Vec<usize>,
+    pub chunks: Vec<Option<usize>>,
+}
+
+fn c01_compare(property: &str, subject: &dyn Subject, input: &[u8], reference: &Execution, spec: &Spec, ex: &Execution, report: &mut Report) {
+    report.evaluations += 1;
+    let (reads, realign_possible) = {
+        let s = ex.src.borrow();
+        (s.ok_reads, s.pos)
+    };
+    report.transitions += ex.src.borrow().read_calls as u64;
+    if reads >= 2 {
+        report.nontrivial += 1;
+    }
+    let _ = realign_possible;
+    let same_items = ex.items == reference.items;
+    let same_end = ex.end.same_outcome(&reference.end);
+    if !(same_items && same_end) {
+        let kind = if !same_items && same_end { "items-differ".to_string() } else { format!("{}-becomes-{}", reference.end.kind(), ex.end.kind()) };
+        let key = format!("{}/schedule-dependence/{}", family_of(subject), kind);
+        report.violation_with(&key, (input.len() * 1000 + spec.forced.len()) as u64, || {
+            let first_diff = ex.items.iter().zip(reference.items.iter()).position(|(a, b)| a != b);
+            (
+                format!(
+                    "{} on {:?}: one-shot run gives {}; with [{}] it gives {}{}",
+                    subject.name(),
+                    show(input),
+                    obs(reference),
+                    spec.describe(),
+                    obs(ex),
+                    first_diff.map_or(String::new(), |i| format!("; first differing item #{i}: {:?} vs {:?}", reference.items[i], ex.items[i]))
+                ),
+                replay_json(property, subject, input, spec),
+            )
+        });
+    }
+}
+
+pub fn c01(subjects: &[Box<dyn Subject>], docs: &[Doc], params: &C01Params, budget: &Budget, report: &mut Report) {
+    let units: Vec<(usize, usize)> = (0..docs.len()).flat_map(|d| (0..subjects.len()).map(move |s| (s, d))).collect();
+    let total = crate::par::par_fold(
+        units.len(),
+        crate::threads(),
+        Report::new,
+        |acc, i| {
+            if budget.expired() {
+                if acc.caps.is_empty() {
+                    acc.cap("C01: time budget hit; remaining (subject, document) units skipped");
+                }
+                return;
+            }
+            let (si, di) = units[i];
+            let subject = subjects[si].as_ref();
+            let input = &docs[di].bytes;
+            let reference = run_spec(subject, input, &Spec::oneshot());
+            acc.outcome(format!("{}:{}", family_of(subject), reference.end.sig()));
+            acc.states += 1;
+            if input.len() <= params.all_len {
+                explore_schedules(subject, input, &Spec::choose(vec![], 1, None), None, acc, |spec, ex, rep| {
+                    c01_compare("C01", subject, input, &reference, spec, ex, rep)
+                });
+            } else {
+                let bound = if input.len() <= params.dev2_max_len { params.dev_bound } else { 1 };
+                explore_schedules(subject, input, &Spec::choose(vec![], params.dev_interrupts, None), Some(bound), acc, |spec, ex, rep| {
+                    c01_compare("C01", subject, input, &reference, spec, ex, rep)
+                });
+            }
+            for &s in &params.uni {
+                for &chunk in &params.chunks {
+                    let spec = Spec::uniform(s, chunk);
+                    let ex = run_spec(subject, input, &spec);
+                    c01_compare("C01", subject, input, &reference, &spec, &ex, acc);
+                }
+            }
+        },
+        |a, b| a.merge(b),
+    );
+    report.merge(total);
+}
+
+pub fn c01_replay(subject: &dyn Subject, v: &Value) -> (bool, String) {
+    let input = unhex(v["input_hex"].as_str().unwrap());
+    let spec = Spec::from_json(&v["spec"]);
+    let reference = run_spec(subject, &input, &Spec::oneshot());
+    let ex = run_spec(subject, &input, &spec);
+    let ex2 = run_spec(subject, &input, &spec);
+    let mut text = format!("{} on {:?}\n  one-shot:  {:?} then {}\n  [{}]: {:?} then {}\n", subject.name(), show(&input), reference.items, reference.end.short(), spec.describe(), ex.items, ex.end.short());
+    if ex.items != ex2.items || ex.end != ex2.end {
+        text.push_str("  NONDETERMINISTIC REPLAY\n");
+    }
+    (!(ex.items == reference.items && ex.end.same_outcome(&reference.end)), text)
+}
+
+// ------------------------------------------------------------------------------------------------
+// C04
+
+pub struct C04Params {
+    pub max_len: usize,
+    pub uni: Vec<usize>,
+    pub dev_bound: usize,
+    pub dev_max_len: usize,
+}
+
+fn c04_judge(reference: &Execution, ex: &Execution) -> Option<(&'static str, String)> {
+    let triggered = ex.src.borrow().err_returned > 0;
+    // (iii) items handed out before the end equal the fault-free items at the same index
+    for (i, it) in ex.items.iter().enumerate() {
+        if reference.items.get(i) != Some(it) {
+            return Some(("item-differs", format!("item #{i} handed out before the error is {:?}, the fault-free run has {:?} there", it, reference.items.get(i))));
+        }
+    }
+    match &ex.end {
+        End::Io(_) => None,
+        End::Clean => Some(("clean-end-despite-fault", "the input was reported as successfully and completely parsed although the source failed".into())),
+        End::Syntax { .. } => {
+            if !triggered && ex.end.same_outcome(&reference.end) {
+                None
+            } else if triggered {
+                Some(("syntax-error-after-fault", format!("a syntax error ({}) was reported for data that merely ends where the source failed", ex.end.short())))
+            } else {
+                Some(("syntax-error-differs", format!("syntax error {} differs from the fault-free run's {}", ex.end.short(), reference.end.short())))
+            }
+        }
+        End::Panic { .. } => Some(("panic", format!("panicked: {}", ex.end.short()))),
+        End::OtherErr(e) => Some(("other-error", format!("ended with {e}"))),
+    }
+}
+
+pub fn c04(subjects: &[Box<dyn Subject>], docs: &[Doc], params: &C04Params, budget: &Budget, report: &mut Report) {
+    let units: Vec<(usize, usize)> = (0..docs.len()).filter(|&d| docs[d].bytes.len() <= params.max_len).flat_map(|d| (0..subjects.len()).map(move |s| (s, d))).collect();
+    let total = crate::par::par_fold(
+        units.len(),
+        crate::threads(),
+        Report::new,
+        |acc, i| {
+            if budget.expired() {
+                if acc.caps.is_empty() {
+                    acc.cap("C04: time budget hit; remaining (subject, document) units skipped");
+                }
+                return;
+            }
+            let (si, di) = units[i];
+            let subject = subjects[si].as_ref();
+            let input = &docs[di].bytes;
+            let reference = run_spec(subject, input, &Spec::oneshot());
+            acc.states += 1;
+            for k in 0..=input.len() {
+                let inside_token = k > 0 && k < input.len() && !input[k - 1].is_ascii_whitespace() && !input[k].is_ascii_whitespace();
+                let mut judge = |spec: &Spec, ex: &Execution, rep: &mut Report| {
+                    rep.evaluations += 1;
+                    rep.transitions += ex.src.borrow().read_calls as u64;
+                    if inside_token || k == input.len() {
+                        rep.nontrivial += 1;
+                    }
+                    rep.outcome(format!("{}:{}:{}", family_of(subject), ex.end.kind(), ex.src.borrow().err_returned > 0));
+                    if let Some((kind, what)) = c04_judge(&reference, ex) {
+                        let key = format!("{}/failing-source/{}", family_of(subject), kind);
+                        rep.violation_with(&key, (input.len() * 1000 + k) as u64, || {
+                            (format!("{} on {:?} [{}]: {what} (fault-free run: {})", subject.name(), show(input), spec.describe(), obs(&reference)), replay_json("C04", subject, input, spec))
+                        });
+                    }
+                };
+                let mut specs = vec![Spec::oneshot().fault(Some(k))];
+                for &s in &params.uni {
+                    specs.push(Spec::uniform(s, None).fault(Some(k)));
+                    specs.push(Spec::uniform(s, Some(s.max(1))).fault(Some(k)));
+                }
+                for spec in &specs {
+                    let ex = run_spec(subject, input, spec);
+                    judge(spec, &ex, acc);
+                }
+                if input.len() <= params.dev_max_len {
+                    explore_schedules(subject, input, &Spec::choose(vec![], 0, None).fault(Some(k)), Some(params.dev_bound), acc, |spec, ex, rep| judge(spec, ex, rep));
+                }
+            }
+        },
+        |a, b| a.merge(b),
+    );
+    report.merge(total);
+}
+
+pub fn c04_replay(subject: &dyn Subject, v: &Value) -> (bool, String) {
+    let input = unhex(v["input_hex"].as_str().unwrap());
+    let spec = Spec::from_json(&v["spec"]);
+    let reference = run_spec(subject, &input, &Spec::oneshot());
+    let ex = run_spec(subject, &input, &spec);
+    let verdict = c04_judge(&reference, &ex);
+    let text = format!(
+        "{} on {:?}\n  fault-free: {:?} then {}\n  [{}]: {:?} then {}\n  {}\n",
+        subject.name(), show(&input), reference.items, reference.end.short(), spec.describe(), ex.items, ex.end.short(),
+        verdict.as_ref().map_or("ok".to_string(), |(k, w)| format!("{k}: {w}"))
+    );
+    (verdict.is_some(), text)
+}
+
+// ------------------------------------------------------------------------------------------------
+// C05 (in-process part: panic / heap bound / step budget). Process isolation lives in `isolate`.
+
+pub const HEAP_FACTOR: usize = 64;
+pub const HEAP_SLACK: usize = 128 << 10;
+
+pub fn c05_case(subject: &dyn Subject, input: &[u8], spec: &Spec) -> Option<(String, String)> {
+    crate::alloc::start();
+    let t0 = std::time::Instant::now();
+    let ex = run_spec(subject, input, spec);
+    let (peak, largest) = crate::alloc::stop();
+    let consumed = ex.src.borrow().pos;
+    if let End::Panic { msg, loc } = &ex.end {
+        let class: String = msg.chars().take_while(|c| !c.is_ascii_digit()).take(40).collect();
+        return Some((format!("panic/{}/{}", loc, class.trim().replace(' ', "-")), format!("panicked: {msg} @ {loc}")));
+    }
+    let allowed = HEAP_FACTOR * consumed + HEAP_SLACK + spec.chunk.unwrap_or(16 << 10) * 4;
+    if peak > allowed {
+        return Some(("heap".to_string(), format!("peak requested heap {peak} bytes (largest single request {largest}) after consuming {consumed} input bytes; bound {allowed}")));
+    }
+    if t0.elapsed().as_secs_f64() > 2.0 {
+        return Some(("time".to_string(), format!("took {:.1}s for {} bytes", t0.elapsed().as_secs_f64(), input.len())));
+    }
+    None
+}
+
+pub fn c05_units(subjects: &[Box<dyn Subject>], docs: &[Doc]) -> Vec<(usize, usize)> {
+    (0..docs.len()).flat_map(|d| (0..subjects.len()).map(move |s| (s, d))).collect()
+}
+
+pub fn c05_specs() -> Vec<Spec> {
+    vec![Spec::oneshot(), Spec::uniform(1, Some(1))]
+}
+
+/// Run one C05 unit (subject x document x both schedules) and record the result.
+pub fn c05_unit(subject: &dyn Subject, input: &[u8], report: &mut Report) {
+    for spec in c05_specs() {
+        report.evaluations += 1;
+        report.transitions += 1;
+        let verdict = c05_case(subject, input, &spec);
+        match &verdict {
+            None => report.outcome(format!("{}:ok", family_of(subject))),
+            Some((k, _)) => report.outcome(format!("{}:{}", family_of(subject), k)),
+        }
+        if let Some((kind, what)) = verdict {
+            let key = format!("{}/totality/{}", family_of(subject), kind);
+            report.violation_with(&key, input.len() as u64, || (format!("{} on {:?} [{}]: {what}", subject.name(), show(input), spec.describe()), replay_json("C05", subject, input, &spec)));
+        }
+    }
+}
+
+pub fn c05_replay(subject: &dyn Subject, v: &Value) -> (bool, String) {
+    let input = unhex(v["input_hex"].as_str().unwrap());
+    let spec = Spec::from_json(&v["spec"]);
+    let verdict = c05_case(subject, &input, &spec);
+    let text = format!("{} on {:?} [{}]\n  {}\n", subject.name(), show(&input), spec.describe(), verdict.as_ref().map_or("terminated with a value within the resource bound".to_string(), |(k, w)| format!("{k}: {w}")));
+    (verdict.is_some(), text)
+}
+
+// ------------------------------------------------------------------------------------------------
+// C08
+
+/// In-range clause: 1 <= line <= lines+1, 1 <= column <= len(line)+1 (lines split at LF).
+pub fn location_in_range(input: &[u8], line: usize, column: usize) -> Result<(), String> {
+    let lines: Vec<&[u8]> = input.split(|&b| b == b'\n').collect();
+    // split gives a trailing empty piece when the input ends in LF: that is "line count + 1"
+    let n_lines = if input.is_empty() { 0 } else if input.ends_with(b"\n") { lines.len() - 1 } else { lines.len() };
+    if line < 1 || line > n_lines + 1 {
+        return Err(format!("line {line} is outside 1..={} (the input has {n_lines} line(s))", n_lines + 1));
+    }
+    let len = lines.get(line - 1).map_or(0, |l| l.len());
+    if column < 1 || column > len + 1 {
+        return Err(format!("column {column} is outside 1..={} (line {line} has {len} bytes)", len + 1));
+    }
+    Ok(())
+}
+
+pub struct Corruption {
+    pub doc: Doc,
+    /// expected line and inclusive column range of the corrupted token (+1 allowed past the end)
+    pub line: usize,
+    pub col_first: usize,
+    pub col_last: usize,
+    pub what: String,
+}
+
+pub fn c08_specs(tier: Tier, len: usize) -> Vec<Spec> {
+    let mut v = vec![Spec::oneshot(), Spec::uniform(1, Some(1)), Spec::uniform(3, Some(3)), Spec::uniform(1, None), Spec::uniform(7, Some(16))];
+    if tier == Tier::Thorough {
+        v.push(Spec::uniform(2, Some(1)));
+        v.push(Spec::uniform(5, Some(2)));
+    }
+    let _ = len;
+    v
+}
+
+pub fn c08(subjects: &[Box<dyn Subject>], docs: &[Doc], corruptions: &[(usize, Corruption)], tier: Tier, budget: &Budget, report: &mut Report) {
+    // (a) in-range clause on every rejected input
+    let units = c05_units(subjects, docs);
+    let total = crate::par::par_fold(
+        units.len(),
+        crate::threads(),
+        Report::new,
+        |acc, i| {
+            if budget.expired() {
+                if acc.caps.is_empty() {
+                    acc.cap("C08: time budget hit in the in-range sweep");
+                }
+                return;
+            }
+            let (si, di) = units[i];
+            let subject = subjects[si].as_ref();
+            let input = &docs[di].bytes;
+            for spec in c08_specs(tier, input.len()) {
+                let ex = run_spec(subject, input, &spec);
+                acc.evaluations += 1;
+                acc.transitions += 1;
+                if let End::Syntax { line, column, .. } = &ex.end {
+                    acc.nontrivial += 1;
+                    acc.outcome(format!("{}:syntax", family_of(subject)));
+                    if let Err(why) = location_in_range(input, *line, *column) {
+                        let key = format!("{}/location/out-of-range", family_of(subject));
+                        acc.violation_with(&key, input.len() as u64, || (format!("{} on {:?} [{}]: {}: {why}", subject.name(), show(input), spec.describe(), ex.end.short()), replay_json("C08", subject, input, &spec)));
+                    }
+                } else {
+                    acc.outcome(format!("{}:{}", family_of(subject), ex.end.kind()));
+                }
+            }
+        },
+        |a, b| a.merge(b),
+    );
+    report.merge(total);
+    // (b) exact-location clause on the corruption catalogue; (subject index, corruption)
+    let total = crate::par::par_fold(
+        corruptions.len(),
+        crate::threads(),
+        Report::new,
+        |acc, i| {
+            let (si, c) = &corruptions[i];
+            let subject = subjects[*si].as_ref();
+            let input = &c.doc.bytes;
+            acc.states += 1;
+            for spec in c08_specs(tier, input.len()) {
+                let ex = run_spec(subject, input, &spec);
+                acc.evaluations += 1;
+                acc.transitions += 1;
+                acc.nontrivial += 1;
+                let verdict = c08_exact(c, &ex);
+                acc.outcome(format!("{}:exact:{}", family_of(subject), verdict.is_none()));
+                if let Some((kind, why)) = verdict {
+                    let key = format!("{}/location/{kind}", family_of(subject));
+                    acc.violation_with(&key, input.len() as u64, || {
+                        let mut r = replay_json("C08", subject, input, &spec);
+                        r["expect"] = json!({"line": c.line, "col_first": c.col_first, "col_last": c.col_last, "what": c.what});
+                        (format!("{} on {:?} [{}] ({}): {why}", subject.name(), show(input), spec.describe(), c.what), r)
+                    });
+                }
+            }
+        },
+        |a, b| a.merge(b),
+    );
+    report.merge(total);
+}
+
+fn c08_exact(c: &Corruption, ex: &Execution) -> Option<(&'static str, String)> {
+    match &ex.end {
+        End::Syntax { line, column, .. } => {
+            if *line != c.line || *column < c.col_first || *column > c.col_last + 1 {
+                Some(("wrong-position", format!("error reported at {line}:{column}, the corrupted token is on line {} columns {}..={}", c.line, c.col_first, c.col_last)))
+            } else {
+                None
+            }
+        }
+        End::Panic { msg, loc } => Some(("panic", format!("panicked instead of reporting a location: {msg} @ {loc}"))),
+        other => Some(("not-rejected", format!("the corrupted document was not rejected with a syntax error: {}", other.short()))),
+    }
+}
+
+pub fn c08_replay(subject: &dyn Subject, v: &Value) -> (bool, String) {
+    let input = unhex(v["input_hex"].as_str().unwrap());
+    let spec = Spec::from_json(&v["spec"]);
+    let ex = run_spec(subject, &input, &spec);
+    let mut bad = false;
+    let mut text = format!("{} on {:?} [{}]\n  outcome: {}\n", subject.name(), show(&input), spec.describe(), ex.end.short());
+    if let End::Syntax { line, column, .. } = &ex.end {
+        if let Err(why) = location_in_range(&input, *line, *column) {
+            bad = true;
+            text.push_str(&format!("  out of range: {why}\n"));
+        }
+    }
+    if let End::Panic { .. } = &ex.end {
+        bad = true;
+    }
+    if !v["expect"].is_null() {
+        let c = Corruption {
+            doc: Doc::new("", input.clone()),
+            line: v["expect"]["line"].as_u64().unwrap() as usize,
+            col_first: v["expect"]["col_first"].as_u64().unwrap() as usize,
+            col_last: v["expect"]["col_last"].as_u64().unwrap() as usize,
+            what: v["expect"]["what"].as_str().unwrap_or("").to_string(),
+        };
+        if let Some((k, why)) = c08_exact(&c, &ex) {
+            bad = true;
+            text.push_str(&format!("  {k}: {why}\n"));
+        }
+    }
+    (bad, text)
+}
+
+// ------------------------------------------------------------------------------------------------
+// C09, parser half
+
+/// For every item of the clean one-shot run: the offset of the last byte of the line (gating unit)
+/// that completes it = end of the gating unit containing the last byte of the shortest prefix on
+/// which the parser (fed that prefix followed by end of input) hands out the same item.
+pub fn completion_offsets(subject: &dyn Subject, input: &[u8], reference: &Execution) -> Vec<usize> {
+    let bounds = subject.boundaries(input);
+    let mut out = Vec::new();
+    let mut p = 0usize;
+    for i in 0..reference.items.len() {
+        // monotone in i: start from the previous minimal prefix
+        loop {
+            let ex = run_spec(subject, &input[..p], &Spec::oneshot());
+            if ex.items.len() > i && ex.items[..=i] == reference.items[..=i] {
+                break;
+            }
+            p += 1;
+            if p > input.len() {
+                break;
+            }
+        }
+        let p_min = p.min(input.len());
+        // end of the gating unit containing byte p_min-1 (or the first unit if p_min == 0)
+        let e = bounds.iter().copied().find(|&b| b >= p_min.max(1)).unwrap_or(input.len());
+        out.push(e.saturating_sub(1));
+    }
+    out
+}
+
+pub fn c09_judge(ex: &Execution, reference: &Execution, completion: &[usize]) -> Option<(usize, String)> {
+    for (i, &handed) in ex.handed_out_at_item.iter().enumerate() {
+        if i >= completion.len() {
+            break;
+        }
+        if ex.items[i] != reference.items[i] {
+            return Some((i, format!("item #{i} differs from the one-shot run (schedule dependence, see C01)")));
+        }
+        if handed > completion[i] + 1 {
+            return Some((i, format!("item #{i} ({}) was handed out only after the source had delivered {handed} bytes; the line that completes it ends at offset {} ({} bytes)", ex.items[i], completion[i], completion[i] + 1)));
+        }
+    }
+    if ex.items.len() < reference.items.len() && matches!(reference.end, End::Clean) {
+        return Some((ex.items.len(), format!("only {} of {} items were handed out ({})", ex.items.len(), reference.items.len(), ex.end.short())));
+    }
+    None
+}
+
+pub fn c09(subjects: &[Box<dyn Subject>], docs: &[Doc], tier: Tier, budget: &Budget, report: &mut Report) {
+    let units: Vec<(usize, usize)> = c05_units(subjects, docs).into_iter().filter(|(s, _)| subjects[*s].streaming()).collect();
+    let total = crate::par::par_fold(
+        units.len(),
+        crate::threads(),
+        Report::new,
+        |acc, i| {
+            if budget.expired() {
+                if acc.caps.is_empty() {
+                    acc.cap("C09: time budget hit; remaining units skipped");
+                }
+                return;
+            }
+            let (si, di) = units[i];
+            let subject = subjects[si].as_ref();
+            let input = &docs[di].bytes;
+            let reference = run_spec(subject, input, &Spec::oneshot());
+            if !matches!(reference.end, End::Clean) || reference.items.is_empty() {
+                return; // the property speaks about well-formed documents
+            }
+            acc.states += 1;
+            let completion = completion_offsets(subject, input, &reference);
+            let mut judge = |spec: &Spec, ex: &Execution, rep: &mut Report| {
+                rep.evaluations += 1;
+                rep.transitions += ex.src.borrow().read_calls as u64;
+                rep.nontrivial += 1;
+                let max_slack = ex.handed_out_at_item.iter().zip(completion.iter()).map(|(h, c)| (c + 1).saturating_sub(*h)).min().unwrap_or(0);
+                rep.max("min_slack_bytes_between_completion_and_delivery", max_slack as u64);
+                rep.outcome(format!("{}:{}", family_of(subject), ex.items.len().min(6)));
+                if let Some((item, why)) = c09_judge(ex, &reference, &completion) {
+                    let key = format!("{}/read-ahead/{}", family_of(subject), reference.items[item.min(reference.items.len() - 1)].split(|c: char| !c.is_alphanumeric()).next().unwrap_or("item"));
+                    rep.violation_with(&key, (input.len() * 1000 + spec.forced.len()) as u64, || (format!("{} on {:?} [{}]: {why}", subject.name(), show(input), spec.describe()), replay_json("C09", subject, input, spec)));
+                }
+            };
+            let chunks: &[Option<usize>] = if tier == Tier::Quick { &[None, Some(1), Some(5)] } else { &[None, Some(1), Some(2), Some(5), Some(8)] };
+            for &chunk in chunks {
+                let bound = if chunk.is_none() { tier.pick(1, 2) } else { 1 };
+                explore_schedules(subject, input, &Spec::choose(vec![], 0, chunk).gated(), Some(bound), acc, |spec, ex, rep| judge(spec, ex, rep));
+            }
+        },
+        |a, b| a.merge(b),
+    );
+    report.merge(total);
+}
+
+pub fn c09_replay(subject: &dyn Subject, v: &Value) -> (bool, String) {
+    let input = unhex(v["input_hex"].as_str().unwrap());
+    let spec = Spec::from_json(&v["spec"]);
+    let reference = run_spec(subject, &input, &Spec::oneshot());
+    let completion = completion_offsets(subject, &input, &reference);
+    let ex = run_spec(subject, &input, &spec);
+    let verdict = c09_judge(&ex, &reference, &completion);
+    let text = format!(
+        "{} on {:?} [{}]\n  items: {:?}\n  completing line ends at offsets: {:?}\n  bytes handed out when each item was returned: {:?}\n  {}\n",
+        subject.name(), show(&input), spec.describe(), ex.items, completion, ex.handed_out_at_item, verdict.as_ref().map_or("ok".to_string(), |(_, w)| w.clone())
+    );
+    (verdict.is_some(), text)
+}
+
+// ------------------------------------------------------------------------------------------------
+// document generators shared by the formats
+
+pub const MARKERS: [u8; 8] = [b' ', b'\n', b'0', b'9', b'-', b'x', 0xff, b'\r'];
+
+/// All single-edit neighbours of a document from the finite catalogue: every proper prefix
+/// (truncation), every byte deleted, every byte replaced by each marker byte.
+pub fn single_edit_neighbours(doc: &Doc, markers: &[u8]) -> Vec<Doc> {
+    let b = &doc.bytes;
+    let mut out = Vec::new();
+    for k in 0..b.len() {
+        out.push(Doc::new(format!("{}|trunc@{k}", doc.name), b[..k].to_vec()));
+    }
+    for k in 0..b.len() {
+        let mut v = b.clone();
+        v.remove(k);
+        out.push(Doc::new(format!("{}|del@{k}", doc.name), v));
+    }
+    for k in 0..b.len() {
+        for &m in markers {
+            if b[k] != m {
+                let mut v = b.clone();
+                v[k] = m;
+                out.push(Doc::new(format!("{}|set@{k}={m:#04x}", doc.name), v));
+            }
+        }
+    }
+    out
+}
+
+/// All concatenations of up to `max_len` tokens.
+pub fn token_sequences(tokens: &[&[u8]], max_len: usize) -> Vec<Doc> {
+    let mut out = vec![Doc::new("seq:", Vec::new())];
+    let mut level: Vec<Vec<u8>> = vec![Vec::new()];
+    for _ in 0..max_len {
+        let mut next = Vec::new();
+        for p in &level {
+            for t in tokens {
+                let mut q = p.clone();
+                q.extend_from_slice(t);
+                next.push(q);
+            }
+        }
+        for q in &next {
+            out.push(Doc::new("seq", q.clone()));
+        }
+        level = next;
+    }
+    out
+}
